@@ -64,6 +64,10 @@ CORPUS = {
                                [P(b"--s= lead", b"--t=trail ", b'--t="q'), {"op": "writeini", "iniopts": 0}]),
   "nil-pointers-include-defaults": sc([leaf(1, b"I", b'long:"i"', ("ptr", "int")), leaf(2, b"S", b'long:"s"', ("ptr", "string")),
                                        leaf(3, b"C", b'long:"c"', ("ptr", "custom"))], [P(), {"op": "writeini", "iniopts": 2}]),
+  # witnesses of the two recorded (unrepaired) findings of KNOWN_FINDINGS.json
+  "known-choice-canonical-text": sc([leaf(1, b"F", b'long:"f" choice:"1e308" choice:"2"', ("k", "float64")), leaf(2, b"N", b'long:"n" choice:"007" choice:"8"', ("k", "int"))],
+                                    [P(b"--f=1e308", b"--n=007"), {"op": "writeini", "iniopts": 0}]),
+  "known-map-key-line-break": sc([leaf(1, b"M", b'long:"m"', ("map", "string", "string"))], [P(b"--m=a\nb:1"), {"op": "writeini", "iniopts": 0}]),
   # regression guards (not defects of the pinned tree): lines longer than bufio's 4096-byte buffer are reassembled from chunks
   "long-lines": sc([leaf(1, b"S", b'long:"s"', S), leaf(2, b"T", b'long:"t"', ("slice", ("k", "string"))), leaf(3, b"N", b'long:"n"', ("k", "int"))],
                    [P(b"--s=" + b"0123456789abcdef" * 320, b"--t=short", b"--t=" + b"x y " * 2300 + b" ", b"--n=7"), {"op": "writeini", "iniopts": 0}]),
@@ -75,6 +79,7 @@ for pid, items in CORPUS.items():
     os.makedirs(os.path.join(root, pid), exist_ok=True)
     for name, s in items.items():
         origin = ("hand-written regression guard (no defect of the pinned tree)" if name in ("long-lines", "very-long-comment-and-value")
+                  else "hand-written witness of a recorded, unrepaired finding (KNOWN_FINDINGS.json, findings)" if name.startswith("known-")
                   else "hand-written witness of a repaired defect (see KNOWN_FINDINGS.json)")
         json.dump({"scenario": common.scenario_json(s), "origin": origin},
                   open(os.path.join(root, pid, name + ".json"), "w"), indent=1)
